@@ -101,4 +101,14 @@ theorem image_array (file : Bytes) (name : String) (rpc : Nat) (gname : String) 
       (∀ r ∈ recs, IsLineRecord Gen.signalDataRecord r ∨ IsLineRecord Gen.processedDataRecord r) :=
   openImageFile_array file name rpc gname g h
 
+/-- non-vacuity of `image_group` / `image_array` (and of C01 `layout_ranges`): a complete two-line level-1.5 image file (720-byte
+    descriptor + two 194-byte processed-data records, written by the independent synthesiser) opens in the model, with the byte
+    ranges of the two one-pixel lines at [912, 914) and [1106, 1108) -/
+def witnessImage : Bytes := [38, 158, 13, 55, 37, 48, 29, 109, 0, 0, 2, 208, 86, 41, 40, 105, 113, 107, 40, 106, 107, 83, 39, 61, 38, 104, 50, 32, 106, 32, 46, 32, 124, 41, 105, 40, 112, 59, 96, 120, 101, 32, 32, 32, 53, 57, 50, 52, 122, 64, 43, 106, 71, 100, 32, 32, 32, 32, 32, 32, 32, 32, 32, 32, 69, 110, 42, 48, 53, 54, 53, 57, 57, 51, 57, 53, 48, 32, 32, 32, 109, 96, 107, 32, 32, 32, 32, 32, 32, 32, 32, 48, 52, 54, 54, 50, 32, 35, 92, 78, 52, 55, 48, 57, 32, 32, 32, 32, 32, 32, 53, 55, 123, 62, 62, 66, 32, 32, 32, 32, 32, 32, 32, 32, 32, 32, 101, 80, 111, 105, 73, 49, 121, 98, 112, 116, 119, 32, 39, 91, 120, 104, 83, 83, 84, 83, 46, 94, 114, 84, 40, 57, 41, 59, 89, 53, 47, 76, 109, 39, 46, 33, 105, 52, 101, 45, 79, 111, 36, 42, 59, 111, 81, 52, 114, 65, 77, 110, 79, 93, 32, 32, 32, 32, 32, 50, 32, 32, 32, 49, 57, 52, 32, 32, 32, 32, 32, 32, 32, 32, 92, 94, 94, 72, 43, 51, 46, 32, 76, 32, 66, 94, 121, 53, 99, 35, 48, 48, 56, 56, 32, 53, 51, 48, 32, 54, 53, 49, 62, 58, 99, 32, 43, 48, 32, 32, 32, 32, 32, 32, 32, 32, 32, 50, 57, 57, 57, 57, 32, 32, 32, 32, 32, 32, 32, 49, 32, 57, 55, 55, 57, 57, 57, 56, 32, 32, 32, 49, 88, 114, 32, 32, 53, 57, 32, 48, 32, 55, 56, 32, 32, 32, 32, 32, 32, 32, 32, 48, 51, 49, 57, 49, 32, 32, 70, 97, 66, 102, 86, 49, 40, 32, 32, 32, 97, 49, 101, 52, 100, 98, 35, 32, 32, 32, 32, 32, 32, 32, 32, 52, 104, 40, 32, 32, 32, 32, 32, 32, 46, 104, 40, 64, 57, 68, 38, 45, 89, 32, 32, 32, 32, 32, 32, 32, 32, 32, 32, 32, 32, 32, 32, 110, 98, 58, 121, 68, 90, 98, 101, 94, 97, 64, 122, 99, 66, 104, 58, 90, 32, 89, 73, 42, 118, 63, 87, 42, 32, 32, 32, 32, 32, 52, 124, 32, 50, 92, 61, 32, 45, 32, 32, 32, 32, 32, 32, 118, 61, 53, 32, 32, 76, 86, 58, 78, 73, 44, 125, 79, 35, 76, 103, 91, 89, 32, 32, 32, 32, 32, 32, 32, 32, 32, 32, 32, 32, 32, 32, 32, 73, 85, 50, 32, 32, 53, 50, 52, 45, 57, 57, 57, 57, 57, 57, 57, 57, 57, 57, 57, 32, 52, 49, 53, 43, 48, 32, 32, 48, 32, 32, 32, 32, 32, 32, 32, 32, 32, 32, 32, 32, 32, 32, 32, 32, 32, 32, 32, 32, 32, 32, 32, 32, 32, 32, 32, 32, 32, 32, 32, 32, 32, 32, 32, 32, 32, 32, 32, 32, 32, 32, 32, 32, 32, 32, 32, 32, 32, 32, 32, 32, 32, 32, 32, 32, 32, 32, 32, 32, 32, 32, 32, 32, 32, 32, 32, 32, 32, 32, 32, 32, 32, 32, 32, 32, 32, 32, 32, 32, 32, 32, 32, 32, 32, 32, 32, 32, 32, 32, 32, 32, 32, 32, 32, 32, 32, 32, 32, 32, 32, 32, 32, 32, 32, 32, 32, 32, 32, 32, 32, 32, 32, 32, 32, 32, 32, 32, 32, 32, 32, 32, 32, 32, 32, 32, 32, 32, 32, 32, 32, 32, 32, 32, 32, 32, 32, 32, 32, 32, 32, 32, 32, 32, 32, 32, 32, 32, 32, 41, 66, 48, 91, 34, 76, 103, 86, 67, 112, 49, 38, 100, 123, 63, 47, 53, 66, 39, 56, 58, 72, 113, 72, 100, 59, 70, 90, 97, 119, 55, 67, 77, 35, 65, 37, 34, 35, 126, 97, 103, 57, 98, 93, 64, 90, 46, 117, 116, 88, 117, 96, 102, 83, 97, 72, 121, 60, 62, 76, 58, 123, 126, 114, 50, 84, 77, 39, 49, 34, 42, 113, 32, 65, 88, 53, 40, 43, 118, 81, 97, 118, 69, 109, 64, 121, 70, 38, 91, 56, 53, 67, 90, 33, 66, 79, 75, 103, 74, 64, 37, 72, 60, 78, 56, 33, 75, 81, 43, 93, 68, 97, 116, 58, 59, 153, 104, 112, 79, 11, 199, 253, 0, 0, 0, 194, 255, 255, 255, 255, 1, 68, 112, 43, 164, 170, 7, 180, 0, 0, 0, 0, 160, 152, 214, 145, 22, 250, 20, 33, 0, 0, 7, 254, 0, 0, 1, 109, 4, 8, 243, 176, 0, 1, 0, 4, 0, 0, 0, 0, 255, 255, 255, 255, 10, 170, 175, 129, 26, 219, 206, 93, 142, 251, 164, 66, 174, 64, 1, 227, 0, 217, 53, 52, 137, 2, 218, 252, 188, 158, 40, 234, 67, 251, 159, 188, 52, 137, 34, 215, 249, 201, 198, 121, 97, 239, 123, 209, 175, 6, 188, 247, 196, 11, 157, 161, 164, 50, 19, 153, 37, 84, 65, 166, 190, 177, 77, 159, 145, 34, 3, 123, 5, 194, 45, 63, 0, 0, 0, 0, 172, 8, 75, 165, 172, 251, 45, 94, 132, 59, 174, 233, 51, 2, 12, 205, 239, 174, 93, 78, 0, 0, 0, 0, 117, 19, 209, 129, 68, 198, 184, 149, 53, 241, 3, 0, 148, 23, 36, 191, 243, 230, 202, 115, 255, 255, 255, 255, 209, 161, 130, 71, 227, 28, 180, 93, 1, 0, 40, 184, 128, 115, 230, 11, 72, 192, 0, 0, 0, 194, 215, 25, 97, 137, 1, 68, 112, 43, 0, 0, 0, 0, 214, 207, 247, 24, 255, 255, 255, 255, 22, 250, 20, 33, 0, 0, 7, 234, 0, 0, 0, 7, 5, 38, 91, 255, 0, 1, 0, 4, 0, 0, 0, 0, 100, 149, 13, 194, 10, 170, 175, 129, 150, 212, 72, 15, 12, 91, 76, 89, 255, 255, 255, 255, 239, 130, 209, 163, 68, 6, 192, 83, 244, 199, 63, 43, 161, 130, 99, 39, 140, 154, 55, 81, 187, 123, 115, 142, 192, 174, 217, 197, 73, 68, 242, 206, 12, 233, 237, 140, 32, 43, 120, 106, 87, 72, 76, 65, 189, 189, 249, 167, 66, 103, 167, 61, 5, 194, 45, 63, 100, 245, 73, 105, 255, 255, 255, 255, 255, 255, 255, 255, 56, 83, 147, 61, 115, 48, 155, 149, 255, 255, 255, 255, 255, 255, 255, 255, 23, 44, 87, 142, 0, 0, 0, 0, 145, 210, 119, 242, 227, 5, 191, 222, 134, 47, 226, 49, 15, 227, 33, 236, 71, 147, 247, 92, 32, 175, 128, 135, 220, 228]
+
+set_option maxRecDepth 100000 in
+example : (openImageFile witnessImage "IMG-HH-ALOS2290760600-191011-WWDR1.5RUA" 1).toOption.map
+    (fun r => (r.1, r.2.array.byteRanges, r.2.array.shape, r.2.array.typeCode)) =
+    some ("HH", [(912, 914), (1106, 1108)], (2, 1), "IU2") := by decide +kernel
+
 end Alos2.C03
